@@ -13,6 +13,7 @@ import json
 import os
 import socket
 import sys
+import time as _time
 import types
 
 _real_open = builtins.open
@@ -22,6 +23,8 @@ _real_fstat = os.fstat
 _real_os_open = os.open
 _real_os_close = os.close
 _real_readlink = os.readlink
+_real_clock = {n: getattr(_time, n) for n in ("time", "monotonic", "perf_counter", "sleep", "time_ns", "monotonic_ns", "perf_counter_ns")}
+CLOCK_EPOCH = 1_790_000_000.0       # simulated wall clock at the start of every run
 
 PASSTHROUGH_DEV = ("/dev/null", "/dev/urandom", "/dev/random", "/dev/tty", "/dev/shm",
                    "/dev/fd", "/dev/stdin", "/dev/stdout", "/dev/stderr", "/dev/pts", "/dev/zero", "/dev/full")
@@ -65,6 +68,8 @@ class World:
         self.flags = {}
         self.current_thread = None  # set by the scheduler (for event attribution)
         self.step_hook = None
+        self.now = 0.0              # simulated seconds since the run started: the only clock the library can read
+        self.clock_reads = 0
 
     # ---- event log
     def ev(self, kind, **kw):
@@ -129,16 +134,34 @@ class World:
         path = path.rstrip("/") or "/"
         return path == "/dev" or any(p.startswith(path + "/") for p in list(self.nodes) + list(self.links))
 
+    # ---- simulated time
+    def advance(self, dt):
+        """let simulated time pass (between operations, or by the library sleeping)"""
+        if dt > 0:
+            self.now += dt
+            self.ev("clock.advance", dt=dt)
+
+    def read_clock(self):
+        # every read moves the clock by a microsecond, so that a library polling the clock in a loop makes progress
+        self.clock_reads += 1
+        self.now += 1e-6
+        return self.now
+
     # ---- faults
     def arm(self, fault):
         """fault: dict(kind=..., ...) consumed by the next command at a binding"""
         self.armed.append(dict(fault))
 
-    def take_fault(self, kinds):
+    def take_fault(self, kinds, cdb=None):
+        """the first armed fault of one of the kinds (for this thread, and - if the fault names an operation code - for this
+        command).  A fault is consumed by the command it hits unless it is 'sticky' (a target that keeps answering like that)."""
         for i, f in enumerate(self.armed):
             if f["kind"] in kinds and f.get("thread") in (None, self.current_thread):
-                del self.armed[i]
-                self.fire(f["kind"])
+                if f.get("opcode") is not None and (cdb is None or not len(cdb) or cdb[0] != f["opcode"]):
+                    continue
+                if not f.get("sticky"):
+                    del self.armed[i]
+                self.fire(f["kind"] + ("_sticky" if f.get("sticky") else ""))
                 return f
         return None
 
@@ -370,7 +393,7 @@ def _deliver(transport, target, cdb, dataout, xfer_in, extra):
         return None, None, None, OSError(f.get("errno", _errno.EIO), os.strerror(f.get("errno", _errno.EIO)))
     applied = None
     status = None
-    f = W.take_fault(("status",))
+    f = W.take_fault(("status",), cdb)
     if f is not None and f["byte"] != 0:
         # the target completes this command with the injected status instead
         # of executing it (the target decides before it changes anything)
@@ -452,6 +475,10 @@ def make_sgio():
             raise OSError(_errno.EBADF, "Bad file descriptor")
         node_now = W.lookup(h.name)
         extra = dict(hid=h.hid, handle_ino=h.ino, path_ino=node_now.ino if node_now else None, same_node=node_now is h.node)
+        if out_len and W.flags.get("enforce_open_mode") and not h.writable():
+            # the sg driver refuses data-out commands on a file descriptor that was not opened for writing
+            W.ev("sgio.cmd", cdb=bytes(cdb), error="EPERM", **extra)
+            raise OSError(_errno.EPERM, "Operation not permitted")
         status, sense, datain, err = _deliver("sgio", h.node.target, bytes(cdb),
                                               bytes(data_out) if out_len else b"", in_len, extra)
         if W.deliveries:
@@ -613,12 +640,20 @@ class _UnloadableFinder:
         return None
 
 
+def drop_editable_finders():
+    """/venv carries an editable install of /repo whose meta-path finder resolves pyscsi.* from /repo whatever tree is being
+    verified (it would silently supply sub-packages the tree under test lacks): the library must come from sys.path only"""
+    sys.meta_path[:] = [f for f in sys.meta_path
+                        if "__editable__" not in str(getattr(f, "__module__", "")) and "__editable__" not in type(f).__module__]
+
+
 def install(sgio=True, iscsi=True, hostname="simhost"):
     """Install the seams.  Must run before pyscsi is imported.  sgio/iscsi:
     True -> fake module present, False -> absent (import raises ModuleNotFoundError),
     "unloadable" -> installed but failing to load (import raises plain ImportError)."""
     global _installed
     WORLD.hostname = hostname
+    drop_editable_finders()
     for name, present, make in (("sgio", sgio, make_sgio), ("iscsi", iscsi, make_iscsi)):
         if present == "unloadable":
             # the extension module is installed but cannot be loaded (stale build, missing shared library):
@@ -640,6 +675,14 @@ def install(sgio=True, iscsi=True, hostname="simhost"):
         os.open = fake_os_open
         os.close = fake_os_close
         socket.gethostname = lambda: WORLD.hostname
+        # the clock: the library (and only the library; the harness keeps the real one in sim/core.py) reads simulated time
+        _time.time = lambda: CLOCK_EPOCH + WORLD.read_clock()
+        _time.monotonic = lambda: 1000.0 + WORLD.read_clock()
+        _time.perf_counter = lambda: 1000.0 + WORLD.read_clock()
+        _time.time_ns = lambda: int((CLOCK_EPOCH + WORLD.read_clock()) * 1e9)
+        _time.monotonic_ns = lambda: int((1000.0 + WORLD.read_clock()) * 1e9)
+        _time.perf_counter_ns = lambda: int((1000.0 + WORLD.read_clock()) * 1e9)
+        _time.sleep = lambda d: WORLD.advance(float(d))
         _installed = True
 
 
